@@ -389,6 +389,11 @@ def g_spectrum(s, P):
             P.add('S.file_roundtrip', s.choice([fs, P.add('S.fold', fs)]) if s.chance(0.5) else fs)
         else:
             P.add(s.choice(['ll', 'll_multinom', 'linear_Poisson_residual', 'Anscombe_Poisson_residual', 'optimal_sfs_scaling']), fs, other)
+    if not corners:
+        # statistics temporarily re-mask the corners of a spectrum whose corners are unmasked
+        P.add('S.S', fs)
+        P.add('S.Watterson_theta' if nd == 1 else 'S.S', fs)
+        P.add('S.sum', fs)
     return P
 
 
